@@ -274,6 +274,14 @@ func (X *Exec) execUnOp(fr *Frame, i *ssa.UnOp, st *State) {
 	case token.NOT:
 		fr.Regs[i] = &Val{T: ts.Not(x.T), GT: i.Type()}
 	case token.SUB:
+		if x.T.Sort.BV != 0 {
+			fr.Regs[i] = &Val{T: ts.Raw("bvneg", x.T.Sort, x.T), GT: i.Type()}
+			return
+		}
+		if x.T.Sort.FP != 0 {
+			fr.Regs[i] = &Val{T: ts.Raw("fp.neg", x.T.Sort, x.T), GT: i.Type()}
+			return
+		}
 		if x.T.Sort == SReal {
 			fr.Regs[i] = &Val{T: ts.App("-", SReal, x.T), GT: i.Type()}
 			return
@@ -681,6 +689,9 @@ func (X *Exec) execBinOp(fr *Frame, i *ssa.BinOp, st *State) *Val {
 		panic("binop on addresses")
 	}
 	xT := i.X.Type()
+	if xt.Sort.BV != 0 || xt.Sort.FP != 0 {
+		return &Val{T: X.bvBinOp(i.Op, xt, yt, xT, T, st), GT: T}
+	}
 	switch i.Op {
 	case token.EQL, token.NEQ:
 		var r *Term
@@ -877,6 +888,9 @@ func (X *Exec) execConvert(fr *Frame, i *ssa.Convert, st *State) *Val {
 	T := i.Type()
 	fb, fok := from.(*types.Basic)
 	tb, tok := to.(*types.Basic)
+	if X.E.BV && fok && tok && fb.Info()&(types.IsInteger|types.IsFloat) != 0 && tb.Info()&(types.IsInteger|types.IsFloat) != 0 {
+		return &Val{T: X.bvConvert(x.T, i.X.Type(), T, st), GT: T}
+	}
 	switch {
 	case fok && tok && fb.Info()&types.IsInteger != 0 && tb.Info()&types.IsInteger != 0:
 		return &Val{T: X.E.wrap(x.T, T), GT: T}
